@@ -600,6 +600,30 @@ pub fn check_c04(ctx: &Ctx, n: &Node) -> Result<(), Fail> {
             if l.span.is_some() { "has" } else { "has not" }
         );
     }
+    // 7. a bundle of one is that one, whoever builds it: `multiple(vec![e])`, and an accumulator that recorded only `e`
+    //    (through finish and through checkpoint), give back `e` - same text, same span, and locating it again
+    //    composes a single path
+    {
+        let probe = |x: &Error| (x.to_string(), x.explicit_span().map(range), x.clone().at("outer").to_string(), x.len());
+        let want1 = probe(&e);
+        let m1 = Error::multiple(vec![e.clone()]);
+        ensure!(probe(&m1) == want1, "c04:bundle-of-one:multiple", "multiple(vec![e]) is {:?}, e is {:?}", probe(&m1), want1);
+        let mut acc = Error::accumulator();
+        acc.push(e.clone());
+        match acc.finish() {
+            Err(f) => ensure!(probe(&f) == want1, "c04:bundle-of-one:finish", "an accumulator holding only e finishes with {:?}, e is {:?}", probe(&f), want1),
+            Ok(()) => fail!("c04:bundle-of-one:finish", "an accumulator holding one error finished Ok"),
+        }
+        let mut acc = Error::accumulator();
+        acc.push(e.clone());
+        match acc.checkpoint() {
+            Err(f) => ensure!(probe(&f) == want1, "c04:bundle-of-one:checkpoint", "checkpoint() of an accumulator holding only e gives {:?}, e is {:?}", probe(&f), want1),
+            Ok(a) => {
+                let _ = a.finish();
+                fail!("c04:bundle-of-one:checkpoint", "checkpoint() of an accumulator holding one error succeeded");
+            }
+        }
+    }
     let ce = compile_errors(e.clone().write_errors());
     ensure!(
         ce.len() == leaves.len(),
